@@ -304,7 +304,45 @@ func churnJob(j Job, r *JobResult) {
 			}
 		}
 	}
-	r.St.Samples = []any{map[string]any{"system": sys.Name(), "family": "fill in {ascending, descending, zig-zag, inside-out} x delete in those four or every-second-first; and with half deleted, re-inserted ascending / descending, all deleted", "keys": u}}
+	if two {
+		// bidirectional maps: at EVERY point of every drain (after an ascending fill) one colliding Put -
+		// two-sided (key bound, value held by another key), same key with a free value, free key with a
+		// held value - followed by one Remove
+		valOf := func(k int) int { return (k*7 + 3) % u }
+		f := fills[0]
+		for _, d := range dels {
+			var p []Op
+			for _, k := range f.keys {
+				p = append(p, put(k))
+			}
+			gone := map[int]bool{}
+			for i := 0; i+2 < u; i++ {
+				p = append(p, del(d.keys[i]))
+				gone[d.keys[i]] = true
+				k1, k2 := -1, -1
+				for k := 0; k < u; k++ {
+					if !gone[k] {
+						if k1 < 0 {
+							k1 = k
+						}
+						k2 = k
+					}
+				}
+				free := d.keys[0]
+				for _, probe := range [][]Op{
+					{op("put", k1, valOf(k2)), del(k2)},
+					{op("put", k1, valOf(free)), del(k1)},
+					{op("put", free, valOf(k2)), del(k2)},
+				} {
+					q := append(append([]Op{}, p...), probe...)
+					if run(q, fmt.Sprintf("%d pairs inserted ascending, %d removed %s, then a colliding Put and a Remove", u, i+1, d.name)) {
+						return
+					}
+				}
+			}
+		}
+	}
+	r.St.Samples = []any{map[string]any{"system": sys.Name(), "family": "fill in {ascending, descending, zig-zag, inside-out} x delete in those four or every-second-first; and with half deleted, re-inserted ascending / descending, all deleted; bidirectional maps: at every point of every drain one colliding Put (three kinds) and a Remove", "keys": u}}
 }
 
 func init() { jobKinds["churn"] = churnJob }
